@@ -10,7 +10,7 @@ from ..enums import Dialects
 from ..exceptions import QueryException
 from ..queries import Query, QueryBuilder
 from ..terms import ArithmeticExpression, Field, Function, Star, Term
-from ..utils import builder
+from ..utils import builder, format_alias_sql
 
 if TYPE_CHECKING:
     if sys.version_info >= (3, 11):
@@ -170,6 +170,10 @@ class PostgreSQLQueryBuilder(QueryBuilder):
         has_update_from = self._update_table and self._from
 
         ctx = ctx or PostgreSQLQuery.SQL_CONTEXT
+        # RETURNING is part of the statement: the parentheses and the alias an embedding position asks for go around it too
+        embed_ctx = ctx
+        if self._returns:
+            ctx = ctx.copy(subquery=False, with_alias=False)
         ctx = ctx.copy(
             with_namespace=any(
                 [
@@ -215,4 +219,8 @@ class PostgreSQLQueryBuilder(QueryBuilder):
         if self._returns:
             returning_ctx = ctx.copy(with_namespace=self._update_table and self.from_)
             querystring += self._returning_sql(returning_ctx)
+            if embed_ctx.subquery:
+                querystring = "({query})".format(query=querystring)
+            if embed_ctx.with_alias:
+                querystring = format_alias_sql(querystring, self.alias, ctx)
         return querystring
